@@ -288,8 +288,8 @@ func (fr *frame) visitInstr(instr ssa.Instruction) bool /* returned */ {
 	case *ssa.If:
 		c := fr.get(instr.Cond).(*Term)
 		if !c.IsConst() && !w.cfg.NoIfConv {
-			if fr.tryIfConvert(instr, c) {
-				return false
+			if converted, finished := fr.tryIfConvert(instr, c); converted {
+				return finished
 			}
 		}
 		succ := 1
